@@ -30,6 +30,11 @@ def input_array(inp):
     return inp['amp'] * (1.0 + (k % 17) / 16.0 + k / 1024.0)
 
 
+def typed_dts(cfg):
+    import numpy as np
+    return {'int': int, 'np.int64': np.int64, 'np.float32': np.float32}.get(cfg.get('dts_type'), float)(cfg['dts'])
+
+
 class C03(Check):
     pid = 'C03'
     timeout = 90.0
@@ -121,6 +126,14 @@ class C03(Check):
             # the sampling step as a user types it (0.3, not 3*0.1 = 0.30000000000000004): dts/dt may then fall just
             # below the integer ratio in floating point
             dts = float(f'{m * dt:.12g}')
+        dts_type = 'float'
+        if stratum in ('S-main', 'S-heun', 'S-adaptive', 'S-torch', 'S-jax', 'S-fortran') and rng.random() < 0.12:
+            # a sampling step that is a whole number of time units, typed by the user as an int / numpy scalar
+            dt = rng.choice([0.5, 0.25, 0.125])
+            dts = float(rng.choice([1, 2]))
+            m = int(round(dts / dt))
+            K = rng.randint(2, 24)
+            dts_type = rng.choice(['int', 'int', 'np.int64', 'np.float32'])
         T = K * dts
         if stratum == 'S-nonmult':
             T = T + rng.choice([0.5, 0.3, 1.2, 2.6]) * dt
@@ -137,7 +150,7 @@ class C03(Check):
                'sampling_arg': True if m > 1 or rng.random() < 0.7 else False,
                'outputs': rng.choice(['explicit', 'wild']),
                'input': gen_input(rng, spec, steps) if rng.random() < 0.4 else None,
-               'fault_at': None}
+               'fault_at': None, 'dts_type': dts_type}
         if stratum == 'S-complex':
             cfg.update({'precision': rng.choice(['complex128', 'complex128', 'complex64']), 'input': None, 'rowlevel': True,
                         'solver': rng.choice(['euler', 'heun', 'heun']), 'solver_kw': {}, 'outputs': 'explicit',
@@ -208,7 +221,7 @@ class C03(Check):
         rec = Recorder(fault_at=cfg['fault_at'], nan_from=cfg.get('nan_from'))
         kw = dict(cfg['solver_kw'])
         if cfg['sampling_arg']:
-            kw['sampling_step_size'] = cfg['dts']
+            kw['sampling_step_size'] = typed_dts(cfg)
         inputs = None
         u = None
         if cfg['input']:
@@ -488,7 +501,7 @@ class C03(Check):
             res['violations'].append({'law': law, 'cls': cls, 'key': key, 'detail': detail})
         kw = dict(cfg['solver_kw'])
         if cfg['sampling_arg']:
-            kw['sampling_step_size'] = cfg['dts']
+            kw['sampling_step_size'] = typed_dts(cfg)
         inputs, u = None, None
         if cfg['input']:
             u = input_array(cfg['input'])
